@@ -186,13 +186,30 @@ pub fn run(ctx: &Ctx, reg: &Registry) -> i32 {
     let n_rand: u64 = ctx.tier.pick(8, 32);
     let acc = ctx.par(|shard, n| {
         let mut acc = Acc::new();
+        // the generated cases of every subject, then the long sequences / maps (stops at and around
+        // indices 255, 1023, 2047: an implementation that reads in chunks has its seams there)
+        let long = long_cases(reg);
+        let total = reg.subjects.len() as u64 * n_cases;
+        let mut work: Vec<(&dyn Subject, Case, u64, bool)> = vec![];
         for (si, s) in reg.subjects.iter().enumerate() {
             let s = s.as_ref();
             for i in 0..n_cases {
-                if !shard_of(si as u64 * n_cases + i, shard, n) {
-                    continue;
+                if shard_of(si as u64 * n_cases + i, shard, n) {
+                    work.push((s, gen_case(reg, s, ctx.seed.wrapping_add(303), i, true), i, false));
                 }
-                let case = gen_case(reg, s, ctx.seed.wrapping_add(303), i, true);
+            }
+        }
+        for (li, (s, case)) in long.into_iter().enumerate() {
+            if shard_of(total + li as u64, shard, n) {
+                work.push((s, case, li as u64, true));
+            }
+        }
+        {
+            for (s, case, i, is_long) in work {
+                let n_rand = if is_long { 2 } else { n_rand };
+                if is_long {
+                    acc.count("long_sequence_cases");
+                }
                 note_case(&mut acc, s, &case);
                 for src in [Source::Ov, Source::Json] {
                     if src == Source::Json && !case.payload.json_representable() {
@@ -245,7 +262,7 @@ pub fn run(ctx: &Ctx, reg: &Registry) -> i32 {
                             }
                         }
                     }
-                    if nd > 0 {
+                    if nd > 0 && !is_long {
                         for script in policies() {
                             let r = run_case(s, &case.payload, src, script.clone());
                             account(&mut acc, s, &case, &r);
@@ -281,7 +298,7 @@ pub fn run(ctx: &Ctx, reg: &Registry) -> i32 {
         acc,
         Finish {
             level: "fault_enumeration",
-            rule: "for every generated payload: the keep-going run T_K, then BreakFrom(k) for EVERY k in 0..=decisions(T_K) (both value sources). Checked per k: events before decision k identical to T_K; after decision k only hand-overs of the very error returned by the previous decision, each at an ancestor-or-self location, no examine/iterate/call/report; the call returns that error; k=0 returns exactly the first report of T_K (and JsonError fails too). For random answer scripts (3/4 and 1/2 Continue, i.e. answers that switch back from Break to Continue): every Break answer is followed by the hand-over of that error and nothing else; a field-level try_from conversion error answered Break ends the derived container whatever the next hand-over is answered. Non-trivial = the keep-going run made at least one report; distinct = (subject, fault signature, trace shape).".into(),
+            rule: "for every generated payload, and for long sequences / maps (1024…3000 entries, faults at and around indices 255, 1023, 2047 and at the end): the keep-going run T_K, then BreakFrom(k) for EVERY k in 0..=decisions(T_K) (both value sources). Checked per k: events before decision k identical to T_K; after decision k only hand-overs of the very error returned by the previous decision, each at an ancestor-or-self location, no examine/iterate/call/report; the call returns that error; k=0 returns exactly the first report of T_K (and JsonError fails too). For random answer scripts (3/4 and 1/2 Continue, i.e. answers that switch back from Break to Continue): every Break answer is followed by the hand-over of that error and nothing else; a field-level try_from conversion error answered Break ends the derived container whatever the next hand-over is answered. Non-trivial = the keep-going run made at least one report; distinct = (subject, fault signature, trace shape).".into(),
             exhaustive: false,
             assumptions: vec!["every Break position of every generated case is enumerated; the cases themselves are sampled".into()],
         },
